@@ -78,7 +78,7 @@ pub fn adsr_config_case() -> BoxedStrategy<AdsrCase> {
         .boxed()
 }
 
-const RULE: &str = "proptest histories: sample rate (log-uniform [100 Hz,192 kHz], integer and not, plus 100/999/1000/1001/44.1k/48k/96k/192k) + 1..60 ops from {gate_on, gate_off, tick(n) n in 1-4 | 1-300 | 1-20000, tick-to-fraction q of the current phase (q in [0,1.3)), seek (shorten the running phase's time, tick, restore: legal calls that place the phase counter anywhere in few ticks), set attack/decay/release (log-uniform [1 ms,20 s], < 5 samples, 0.3-2.5 samples, the bounds, out-of-range/huge/subnormal/NaN/inf), set sustain (U[0,1], 0, 1, -0, out of range, NaN)}; the oracle runs after every tick and every call; ";
+const RULE: &str = "proptest histories: sample rate (log-uniform [100 Hz,192 kHz], integer and not, plus 100/999/1000/1001/44.1k/48k/96k/192k) + 1..60 ops from {gate_on, gate_off, tick(n) n in 1-4 | 1-300 | 1-20000, tick-to-fraction q of the current phase (q in [0,1.3)), seek (shorten the running phase's time, tick, restore: legal calls that place the phase counter anywhere in few ticks), set attack/decay/release (log-uniform [1 ms,20 s], < 5 samples, 0.3-2.5 samples, the bounds, out-of-range/huge/subnormal/NaN/inf), set sustain (U[0,1], 0, 1, -0, out of range, NaN), cut the running phase short, nudged copies of another phase's time, bursts of 3..512 notes, bursts of 3..512 writes of one parameter with no tick in between}; the oracle runs after every tick and every call; ";
 
 pub fn replay(case: &serde_json::Value, mask: u32) -> Result<(), Failure> {
     let c: AdsrCase = serde_json::from_value(case.clone()).map_err(|e| Failure::new("replay_decode", 0, e.to_string()))?;
